@@ -241,7 +241,7 @@ func c09SQL(c Case, arity, n int) [][][]string {
 	if having != "" {
 		sql += " HAVING l >= " + having + " OR l < 0" // the sentinel rows (negative ids) always pass
 	}
-	s := streamsql.New(streamsql.WithDiscardLog())
+	s := streamsql.New(presetOpt(), streamsql.WithDiscardLog())
 	defer s.Stop()
 	if err := s.Execute(sql); err != nil {
 		return [][][]string{{{"exec-error", hx(err.Error())}}}
